@@ -146,6 +146,7 @@ class Opts(object):
         self.scaling = None              # callable(rng, spec, chan types) adding NI_Scale properties
         self.equal_shapes_p = 0.0        # chance that all channels share counts (index de-duplication)
         self.huge_p = 0.0                # chance per world of one channel chunk above 1 MiB (block / buffer sizes)
+        self.short_last_p = 0.0          # chance per eligible segment of a stated short final chunk ("less data than expected")
         self.__dict__.update(kw)
 
 
@@ -329,6 +330,12 @@ def gen_spec(rng, o):
             if (light or chunk_bytes > 2**20) and chunks > 1:
                 chunks = 1
         seg['chunks'] = chunks
+        short = None
+        if o.short_last_p and chunks >= 1 and data_objs and rng.random() < o.short_last_p:
+            cs = set(a[2]['count'] for a in data_objs)
+            if len(cs) == 1 and list(cs)[0] >= 2 and all(a[2]['type'] != 'str' for a in data_objs) and chunk_bytes < 2**20:
+                short = rng.randint(1, list(cs)[0] - 1)
+                seg['short_last'] = short
         data = {}
         lmap = {L['path']: L for L in seg.get('listed', [])}
         for a in data_objs:
@@ -354,7 +361,8 @@ def gen_spec(rng, o):
                     vals.append([gen_text(rng, nb) for nb in parts])
                 data[p] = vals[:chunks]
             else:
-                data[p] = [gen_values(rng, t, idx['count'], o.ts_range) for _ in range(chunks)]
+                data[p] = [gen_values(rng, t, idx['count'] if not (short and c_ == chunks - 1) else short, o.ts_range)
+                           for c_ in range(chunks)]
         seg['data'] = data
         for a in active:
             if a[2] is not None:
